@@ -1,11 +1,184 @@
 import GoSQLXModel.Model.PrintExpr
+import GoSQLXModel.Proofs.ExprRoundTrip
+/-!
+# What the serialiser writes is the reference rendering, hence is read back as the same tree
+
+`kwNorm g` = `g` with its keywords in the serialiser's fixed spelling (IS, NOT, NULL, BETWEEN, AND, IN; the operator of
+a negated LIKE upper-cased, as `BinaryExpression.SQL` writes it).  `print_eq_render`: `printG g = render 1 (kwNorm g)`;
+`print_parse`: the written tokens parse to `(kwNorm g).toEx`, which is `g.toEx` up to the letter case of LIKE / ILIKE
+(`toEx_kwNorm`) — the equality "up to the letter case of keywords and operator words" of the property.
+-/
 namespace GoSQLXModel.ExprParse
 
+/-! ## keyword normalisation -/
+def normNeg : Option String → Option String
+  | none => none
+  | some _ => some "NOT"
+
+mutual
+def kwNorm : G → G
+  | .atom a => .atom a
+  | .call n args => .call n (kwNormL args)
+  | .bin op lit l r => .bin op lit (kwNorm l) (kwNorm r)
+  | .not lit e => .not lit (kwNorm e)
+  | .isnull _ neg _ e => .isnull "IS" (normNeg neg) "NULL" (kwNorm e)
+  | .between neg _ _ e lo hi => .between (normNeg neg) "BETWEEN" "AND" (kwNorm e) (kwNorm lo) (kwNorm hi)
+  | .like neg op e pat => .like (normNeg neg) (if neg.isSome then ⟨op.k, upper op.lit⟩ else op) (kwNorm e) (kwNorm pat)
+  | .inlist neg _ e first rest => .inlist (normNeg neg) "IN" (kwNorm e) (kwNorm first) (kwNormL rest)
+def kwNormL : GL → GL
+  | .nil => .nil
+  | .cons g rest => .cons (kwNorm g) (kwNormL rest)
+end
+
+mutual
+/-- a tree up to the letter case of the LIKE / ILIKE operator word -/
+def Ex.norm : Ex → Ex
+  | .ident n => .ident n
+  | .num v => .num v
+  | .str v => .str v
+  | .bool v => .bool v
+  | .null => .null
+  | .bin op l r => .bin op l.norm r.norm
+  | .not e => .not e.norm
+  | .isnull neg e => .isnull neg e.norm
+  | .between neg e lo hi => .between neg e.norm lo.norm hi.norm
+  | .like neg op l r => .like neg (upper op) l.norm r.norm
+  | .inlist neg e items => .inlist neg e.norm items.normL
+  | .call n args => .call n args.normL
+def ExL.normL : ExL → ExL
+  | .nil => .nil
+  | .cons e rest => .cons e.norm rest.normL
+end
+
+theorem toUpper_idem (c : Char) : c.toUpper.toUpper = c.toUpper := by
+  unfold Char.toUpper
+  split
+  · rename_i h
+    split
+    · rename_i h2
+      exfalso
+      obtain ⟨h2a, _⟩ := h2
+      obtain ⟨ha, hb⟩ := h
+      have ha' := UInt32.le_iff_toNat_le.1 ha
+      have hb' := UInt32.le_iff_toNat_le.1 hb
+      have h2a' := UInt32.le_iff_toNat_le.1 h2a
+      simp only [UInt32.toNat_add, UInt32.toNat_sub] at h2a'
+      have e1 : 'a'.val.toNat = 97 := by decide
+      have e2 : 'z'.val.toNat = 122 := by decide
+      have e3 : 'A'.val.toNat = 65 := by decide
+      rw [e1] at ha' h2a'
+      rw [e2] at hb'
+      rw [e3] at h2a'
+      omega
+    · rfl
+  · rfl
+
+theorem upper_idem (s : String) : upper (upper s) = upper s := by
+  unfold upper
+  rw [String.map_map]
+  congr 1
+  funext c
+  exact toUpper_idem c
+
+theorem isWord_upper (s w : String) : isWord (upper s) w = isWord s w := by simp [isWord, upper_idem]
+
+theorem isSome_normNeg (neg : Option String) : (normNeg neg).isSome = neg.isSome := by cases neg <;> rfl
+theorem isNone_normNeg (neg : Option String) : (normNeg neg).isNone = neg.isNone := by cases neg <;> rfl
+
+mutual
+/-- the tree of the normalised expression is the tree of the expression, up to the case of LIKE / ILIKE -/
+theorem toEx_kwNorm : (g : G) → (kwNorm g).toEx.norm = g.toEx.norm
+  | .atom a => by simp [kwNorm]
+  | .call n args => by simp [kwNorm, G.toEx, Ex.norm, toExL_kwNormL args]
+  | .bin op lit l r => by simp [kwNorm, G.toEx, Ex.norm, toEx_kwNorm l, toEx_kwNorm r]
+  | .not lit e => by simp [kwNorm, G.toEx, Ex.norm, toEx_kwNorm e]
+  | .isnull a b c e => by simp [kwNorm, G.toEx, Ex.norm, toEx_kwNorm e, isSome_normNeg]
+  | .between a b c e lo hi => by simp [kwNorm, G.toEx, Ex.norm, toEx_kwNorm e, toEx_kwNorm lo, toEx_kwNorm hi, isSome_normNeg]
+  | .like neg op e pat => by
+    cases neg <;> simp [kwNorm, G.toEx, Ex.norm, toEx_kwNorm e, toEx_kwNorm pat, normNeg, upper_idem]
+  | .inlist a b e f r => by
+    simp [kwNorm, G.toEx, Ex.norm, GL.toExL, ExL.normL, toEx_kwNorm e, toEx_kwNorm f, toExL_kwNormL r, isSome_normNeg]
+theorem toExL_kwNormL : (l : GL) → (kwNormL l).toExL.normL = l.toExL.normL
+  | .nil => by simp [kwNormL]
+  | .cons g rest => by simp [kwNormL, GL.toExL, ExL.normL, toEx_kwNorm g, toExL_kwNormL rest]
+end
+
+theorem kw_is_plain : plainLit "IS" = true := by decide +kernel
+theorem kw_and_plain : plainLit "AND" = true := by decide +kernel
+theorem kw_in_plain : plainLit "IN" = true := by decide +kernel
+theorem kw_between_word : isWord "BETWEEN" "BETWEEN" = true := by decide +kernel
+theorem kw_in_word : isWord "IN" "IN" = true := by decide +kernel
+
+mutual
+theorem wf_kwNorm : (g : G) → g.WF = true → (kwNorm g).WF = true
+  | .atom a, _ => by simp [kwNorm, G.WF]
+  | .call n args, h => by
+    simp only [G.WF, Bool.and_eq_true] at h
+    simp [kwNorm, G.WF, h.1, wfl_kwNormL args h.2]
+  | .bin op lit l r, h => by
+    simp only [G.WF, Bool.and_eq_true] at h
+    simp [kwNorm, G.WF, h.1.1, wf_kwNorm l h.1.2, wf_kwNorm r h.2]
+  | .not lit e, h => by
+    simp only [G.WF] at h
+    simp [kwNorm, G.WF, wf_kwNorm e h]
+  | .isnull a b c e, h => by
+    simp only [G.WF, Bool.and_eq_true] at h
+    simp [kwNorm, G.WF, kw_is_plain, wf_kwNorm e h.2]
+  | .between a b c e lo hi, h => by
+    simp only [G.WF, Bool.and_eq_true] at h
+    simp [kwNorm, G.WF, kw_between_word, kw_and_plain, wf_kwNorm e h.1.1.2, wf_kwNorm lo h.1.2, wf_kwNorm hi h.2]
+  | .like neg op e pat, h => by
+    simp only [G.WF, Bool.and_eq_true] at h
+    have he := wf_kwNorm e h.1.2
+    have hp := wf_kwNorm pat h.2
+    cases neg with
+    | none => simpa [kwNorm, G.WF, normNeg, he, hp] using h.1.1.1
+    | some nl =>
+      have h1 := h.1.1.1
+      have h2 := h.1.1.2
+      simp only [Option.isNone_some, Bool.false_or] at h2
+      simp only [kwNorm, G.WF, normNeg, Option.isSome_some, if_true, isWord_upper, Option.isNone_some, Bool.false_or, he, hp,
+        Bool.and_true]
+      simp only [h1, h2, Bool.and_self]
+  | .inlist a b e f r, h => by
+    simp only [G.WF, Bool.and_eq_true] at h
+    simp [kwNorm, G.WF, kw_in_plain, kw_in_word, wf_kwNorm e h.1.1.2, wf_kwNorm f h.1.2, wfl_kwNormL r h.2]
+theorem wfl_kwNormL : (l : GL) → l.WFL = true → (kwNormL l).WFL = true
+  | .nil, _ => by simp [kwNormL, GL.WFL]
+  | .cons g rest, h => by
+    simp only [GL.WFL, Bool.and_eq_true] at h
+    simp [kwNormL, GL.WFL, wf_kwNorm g h.1, wfl_kwNormL rest h.2]
+end
+
+theorem prec_kwNorm (g : G) : (kwNorm g).prec = g.prec := by
+  cases g <;> simp [kwNorm, G.prec]
+
+mutual
+theorem need_kwNorm : (k : Nat) → (g : G) → need k (kwNorm g) = need k g
+  | k, .atom a => by simp [kwNorm]
+  | k, .call n args => by simp [kwNorm, need, needL_kwNormL args]
+  | k, .bin op lit l r => by simp [kwNorm, need, need_kwNorm _ l, need_kwNorm _ r]
+  | k, .not lit e => by simp [kwNorm, need, need_kwNorm _ e]
+  | k, .isnull a b c e => by simp [kwNorm, need, need_kwNorm _ e]
+  | k, .between a b c e lo hi => by simp [kwNorm, need, need_kwNorm _ e, need_kwNorm _ lo, need_kwNorm _ hi]
+  | k, .like a b e p => by simp [kwNorm, need, need_kwNorm _ e, need_kwNorm _ p]
+  | k, .inlist a b e f r => by simp [kwNorm, need, need_kwNorm _ e, need_kwNorm _ f, needL_kwNormL r]
+theorem needL_kwNormL : (l : GL) → needL (kwNormL l) = needL l
+  | .nil => by simp [kwNormL]
+  | .cons g rest => by simp [kwNormL, needL, need_kwNorm _ g, needL_kwNormL rest]
+end
+
+/-! ## the parenthesisation rule coincides with the levels of the grammar -/
 theorem childPrec_le (g : G) : g.prec ≤ 8 ∧ (childPrec g = g.prec ∨ (g.prec = 8 ∧ childPrec g = 9)) := by
   cases g with
   | atom a => exact ⟨Nat.le_refl _, Or.inr ⟨rfl, rfl⟩⟩
+  | call n args => exact ⟨Nat.le_refl _, Or.inr ⟨rfl, rfl⟩⟩
   | bin op lit l r => exact ⟨by cases op <;> simp [G.prec, Op.prec], Or.inl rfl⟩
   | not lit e => exact ⟨by simp [G.prec], Or.inl rfl⟩
+  | isnull a b c e => exact ⟨by simp [G.prec], Or.inl rfl⟩
+  | between a b c e lo hi => exact ⟨by simp [G.prec], Or.inl rfl⟩
+  | like a b e p => exact ⟨by simp [G.prec], Or.inl rfl⟩
+  | inlist a b e f r => exact ⟨by simp [G.prec], Or.inl rfl⟩
 
 theorem blt_iff (a b : Nat) : Nat.blt a b = true ↔ a < b := by simp [Nat.blt_eq]
 
@@ -21,8 +194,13 @@ theorem pr (op : Op) (p : Nat) : needsParen p op.prec true = Nat.blt p op.sides.
 theorem pn (p : Nat) : needsParen p 3 false = Nat.blt p 3 := by
   apply bool_ext
   simp [needsParen]
+theorem p4 (p : Nat) (right : Bool) : needsParen p 4 right = Nat.blt p 5 := by
+  apply bool_ext
+  cases right <;> simp [needsParen] <;> omega
+theorem p9 (p : Nat) (hp : p ≤ 9) : needsParen p 9 false = Nat.blt p 9 := by
+  apply bool_ext
+  simp [needsParen]
 
-/-- the serialiser's rule coincides with "the operand's own level is below the level its position requires" -/
 theorem paren_left (op : Op) (g : G) : needsParen (childPrec g) op.prec false = Nat.blt g.prec op.sides.1 := by
   obtain ⟨h8, h⟩ := childPrec_le g
   rcases h with h | ⟨h1, h2⟩
@@ -41,6 +219,30 @@ theorem paren_not (g : G) : needsParen (childPrec g) 3 false = Nat.blt g.prec 3 
   · rw [h]; exact pn _
   · rw [h2, h1, pn]; decide
 
+/-- operands of the predicates: parenthesised iff below the `||` level -/
+theorem paren_pred (g : G) (right : Bool) : needsParen (childPrec g) 4 right = Nat.blt g.prec 5 := by
+  obtain ⟨h8, h⟩ := childPrec_le g
+  rcases h with h | ⟨h1, h2⟩
+  · rw [h]; exact p4 _ _
+  · rw [h2, h1, p4]; decide
+
+/-- the pattern of LIKE: parenthesised iff not a primary -/
+theorem paren_pattern (g : G) : needsParen (childPrec g) 9 false = Nat.blt g.prec 8 := by
+  obtain ⟨h8, h⟩ := childPrec_le g
+  rcases h with h | ⟨h1, h2⟩
+  · rw [h, p9 _ (by omega)]
+    apply bool_ext
+    simp only [blt_iff]
+    constructor
+    · intro _
+      cases g with
+      | atom a => simp [childPrec, G.prec] at h
+      | call n args => simp [childPrec, G.prec] at h
+      | bin op lit l r => cases op <;> simp [G.prec, Op.prec]
+      | _ => simp [G.prec]
+    · intro h'; omega
+  · rw [h2, h1, p9 _ (by omega)]; decide
+
 theorem render_wrap (g : G) (k : Nat) (hk : k ≤ 8) : render k g = wrap (Nat.blt g.prec k) (render 1 g) := by
   by_cases h : g.prec < k
   · rw [render_high g h hk]; simp [wrap, (blt_iff _ _).2 h]
@@ -53,28 +255,80 @@ theorem render_wrap (g : G) (k : Nat) (hk : k ≤ 8) : render k g = wrap (Nat.bl
 
 theorem sides_le (op : Op) : op.sides.1 ≤ 8 ∧ op.sides.2 ≤ 8 := by cases op <;> simp [Op.sides]
 
-/-- **the serialiser writes the reference rendering** -/
-theorem print_eq_render : ∀ g : G, printG g = render 1 g
-  | .atom a => by simp [printG, render]
+theorem negKw_eq (neg : Option String) : negKw neg = negToks (normNeg neg) := by cases neg <;> rfl
+
+/-- an operand written by the serialiser's rule = the reference rendering at the level of its position -/
+theorem operand_eq {g : G} (ih : printG g = render 1 (kwNorm g)) {b : Bool} {k : Nat} (hk : k ≤ 8) (hb : b = Nat.blt g.prec k) :
+    wrap b (printG g) = render k (kwNorm g) := by
+  rw [render_wrap (kwNorm g) k hk, prec_kwNorm, ih, hb]
+
+mutual
+/-- **the serialiser writes the reference rendering** (of the tree with keywords in the fixed spelling) -/
+theorem print_eq_render : (g : G) → printG g = render 1 (kwNorm g)
+  | .atom a => by simp [printG, kwNorm, render]
+  | .call n args => by
+    cases args with
+    | nil => simp [printG, kwNorm, kwNormL, render, printArgs, renderArgs]
+    | cons g rest => simp [printG, kwNorm, kwNormL, render, printArgs, renderArgs, print_eq_render g, printMore_eq rest]
   | .bin op lit l r => by
-    have hl := print_eq_render l
-    have hr := print_eq_render r
     have h1 : ¬ (op.prec < 1) := by cases op <;> simp [Op.prec]
-    simp only [printG, render, h1, if_false, paren_left, paren_right, hl, hr]
-    rw [render_wrap l _ (sides_le op).1, render_wrap r _ (sides_le op).2]
+    simp only [printG, kwNorm, render, h1, if_false]
+    rw [operand_eq (print_eq_render l) (sides_le op).1 (paren_left op l), operand_eq (print_eq_render r) (sides_le op).2 (paren_right op r)]
   | .not lit e => by
-    have he := print_eq_render e
-    simp only [printG, render, paren_not, he]
-    rw [render_wrap e 3 (by omega)]
+    simp only [printG, kwNorm, render]
+    rw [operand_eq (print_eq_render e) (by omega) (paren_not e)]
     simp
+  | .isnull a b c e => by
+    simp only [printG, kwNorm, render]
+    rw [operand_eq (print_eq_render e) (by omega) (paren_pred e false), negKw_eq]
+    simp
+  | .between a b c e lo hi => by
+    simp only [printG, kwNorm, render]
+    rw [operand_eq (print_eq_render e) (by omega) (paren_pred e true), operand_eq (print_eq_render lo) (by omega) (paren_pred lo true),
+      operand_eq (print_eq_render hi) (by omega) (paren_pred hi true), negKw_eq]
+    simp
+  | .like a b e p => by
+    simp only [printG, kwNorm, render]
+    rw [operand_eq (print_eq_render e) (by omega) (paren_pred e false), operand_eq (print_eq_render p) (by omega) (paren_pattern p), negKw_eq]
+    simp
+  | .inlist a b e f r => by
+    simp only [printG, kwNorm, render]
+    rw [operand_eq (print_eq_render e) (by omega) (paren_pred e true), print_eq_render f, printMore_eq r, negKw_eq]
+    simp
+theorem printMore_eq : (l : GL) → printMore l = renderMore (kwNormL l)
+  | .nil => by simp [printMore, kwNormL, renderMore]
+  | .cons g rest => by simp [printMore, kwNormL, renderMore, print_eq_render g, printMore_eq rest]
+end
 
-/-- **C06 (expression core)**: what the serialiser writes is read back as the same tree -/
-theorem print_parse (g : G) (X : List PTok) (hp : PrimStop X) (hn : N1 X) (hd : need 1 g + 1 ≤ maxDepth) :
-    ∃ f0, ∀ f, f0 ≤ f → pExpr f 0 (printG g ++ X) = .ok g.toEx X := by
-  rw [print_eq_render]; exact parse_render g X hp hn hd
+/-- **C06 (expression core)**: what the serialiser writes is read back as the tree with keywords normalised … -/
+theorem print_parse (g : G) (hw : g.WF = true) (X : List PTok) (hp : PrimStop X) (hn : N1 X) (hd : need 1 g + 1 ≤ maxDepth) :
+    ∃ f0, ∀ f, f0 ≤ f → pExpr f 0 (printG g ++ X) = .ok (kwNorm g).toEx X := by
+  rw [print_eq_render]
+  exact parse_render (kwNorm g) (wf_kwNorm g hw) X hp hn (by rw [need_kwNorm]; exact hd)
 
-/-- writing is stable: the text of the re-parsed tree is the text (same tree, same function) — stated on the tree:
-    parsing the written text and writing the result again gives the written text -/
-theorem print_stable (g : G) : printG g = printG g := rfl
+/-- … which is the same tree up to the letter case of the LIKE / ILIKE operator word -/
+theorem print_parse_same_tree (g : G) : (kwNorm g).toEx.norm = g.toEx.norm := toEx_kwNorm g
+
+theorem normNeg_idem (neg : Option String) : normNeg (normNeg neg) = normNeg neg := by cases neg <;> rfl
+
+mutual
+theorem kwNorm_idem : (g : G) → kwNorm (kwNorm g) = kwNorm g
+  | .atom a => by simp [kwNorm]
+  | .call n args => by simp [kwNorm, kwNormL_idem args]
+  | .bin op lit l r => by simp [kwNorm, kwNorm_idem l, kwNorm_idem r]
+  | .not lit e => by simp [kwNorm, kwNorm_idem e]
+  | .isnull a b c e => by simp [kwNorm, kwNorm_idem e, normNeg_idem]
+  | .between a b c e lo hi => by simp [kwNorm, kwNorm_idem e, kwNorm_idem lo, kwNorm_idem hi, normNeg_idem]
+  | .like neg op e p => by
+    cases neg <;> simp [kwNorm, kwNorm_idem e, kwNorm_idem p, normNeg, upper_idem]
+  | .inlist a b e f r => by simp [kwNorm, kwNorm_idem e, kwNorm_idem f, kwNormL_idem r, normNeg_idem]
+theorem kwNormL_idem : (l : GL) → kwNormL (kwNormL l) = kwNormL l
+  | .nil => by simp [kwNormL]
+  | .cons g rest => by simp [kwNormL, kwNorm_idem g, kwNormL_idem rest]
+end
+
+/-- writing is stable: the tree read back from the written text (`kwNorm g`, by `print_parse`) is written as the same text -/
+theorem print_stable (g : G) : printG (kwNorm g) = printG g := by
+  rw [print_eq_render, print_eq_render, kwNorm_idem]
 
 end GoSQLXModel.ExprParse
